@@ -139,7 +139,7 @@ def eval_case(case: dict) -> dict:
         cnt["divider_groups"] += sum(1 for e in hist if e[2])
 
     stats = P.explore(g, case, visit)
-    return {"viol": viol[:50], "nt": stats["observations"] > 1, "cnt": {k: v for k, v in cnt.items() if v},
+    return {"viol": viol[:50], "nt_n": cnt["pages_ge2"], "cnt": {k: v for k, v in cnt.items() if v},
             "evals": stats["observations"], "states": stats["observations"], "transitions": max(0, stats["observations"] - 1),
             "sample": None}
 
@@ -195,7 +195,7 @@ def plan(run):
     quick = run.tier == "quick"
     run.rule = ("per layout gamma (page_by 1-3 levels / subline_by 1-2 levels / both; nrow; header; new_page; pageby_row; pageby_header; inner value "
                 "repeated or fresh): every history of events (h, change level 0..L or 's', divider) up to the depth, unmerged; plus the product of "
-                "group-run lengths over {1..K+2} (quick: {1,2,K-2,K-1,K,K+1}). states = histories executed; non-trivial = work unit with >1 history")
+                "group-run lengths over {1..K+2} (quick: {1,2,K-2,K-1,K,K+1}). states = histories executed; non-trivial = distinct (gamma, history) whose document has >= 2 pages")
     run.assumptions = ["a heading row is recognised by its G<l>v<k> tag in a one-cell row; widths are C08's",
                        "layouts with new_page + pageby_row='column' show the group as a column: only conservation is checked there"]
     cases = []
